@@ -964,6 +964,39 @@ def _null_ret_edges(f):
     return out
 
 
+def rule_attr_handback(ctx, rep, rid):
+    """cds_lfht_destroy(ht, &attr) hands the caller's pthread_attr_t back so that the caller can destroy it.  For an auto-resize table the
+    teardown is only *queued*: resize work already on the queue still runs partition_resize_helper(), which creates its helper threads with
+    `ht->caller_resize_attr ? &ht->resize_attr : NULL` - a shallow copy of the caller's object.  On the deferred branch the table therefore
+    forgets the attribute (caller_resize_attr = NULL) once it has handed it back."""
+    m = ctx.mod("cds", "perfn")
+    f = m.fn("cds_lfht_destroy")
+    if f is None:
+        raise Broken("cds_lfht_destroy vanished")
+    rep.touch(f)
+    hb = [s_ for s_ in f.all_insts() if s_.op == "store" and s_.d.get("ap") and s_.d["ap"]["base"] == ["a", 1] and not s_.d["ap"]["steps"]
+          and (lambda e: e[0] == "load" and e[1].endswith("cds_lfht.caller_resize_attr"))(ir.expr(f, s_.args[0], 4))]
+    pat.require(hb, "cds_lfht_destroy: hand-back of caller_resize_attr through *attr not found")
+    q = pat.calls_opt(f, "urcu_workqueue_queue_work")
+    pat.require(q, "cds_lfht_destroy: deferred teardown (urcu_workqueue_queue_work) not found")
+    deferred = [s_ for s_ in hb if f.reach([s_], q)[0] is not None]
+    clr = [s_ for s_ in pat.stores(f, "cds_lfht.caller_resize_attr") if ir.const_of(f, s_.args[0]) == 0]
+    if not deferred:
+        rep.unk(rid, "destroy.deferred-handback", "no hand-back of the attribute on the path that queues the teardown: shape not recognised")
+        return
+    rep.must_pass(rid, "destroy.forgets-attr-after-handback", f, deferred, None, lambda i: i in clr, to_exit=True,
+                  what="on the deferred (auto-resize) branch the table clears caller_resize_attr after handing the attribute back: a resize step still in flight "
+                       "creates its helper threads with default attributes, not with a copy of an object the caller has been told to destroy")
+    # and the consumer: partition_resize_helper selects the attribute by that very field
+    h = m.fn("partition_resize_helper")
+    if h is not None:
+        rep.touch(h)
+        pc = pat.calls_opt(h, "pthread_create")
+        if pc:
+            uses = [l for l in pat.loads(h, "cds_lfht.caller_resize_attr")]
+            rep.check(bool(uses), rid, "helper.attr-selected-by-caller_resize_attr", "helper threads get &resize_attr only while caller_resize_attr is set", "partition_resize_helper no longer tests caller_resize_attr before using the copied attribute", [pc[0].where()])
+
+
 def rule_destroy2(ctx, rep, rid):
     """destroy paths: the table is released only after cds_lfht_delete_bucket() succeeded (it refuses a non-empty table), and a
     refusal is reported to the caller / is fatal on the worker; the worker-side destroy runs as a registered RCU thread."""
